@@ -1,10 +1,101 @@
 import CueVerif.Driver.Proto
+import CueVerif.Model.Tidy
+import CueVerif.Spec.Tidy
 namespace CueVerif.Driver.C17
-open CueVerif CueVerif.Driver
+open CueVerif CueVerif.Driver CueVerif.Tidy
 
-/-- protocol handler for C17: words of one op line (after the property id) → answer -/
+/-! universe text (see harness/c17_univ.go):
+  path   = n.n.n          mpath = path@major      import = path | path@major
+  deps   = mpath=rank[!],…  ("-" = none)          pkgs = path>imp,imp;…  ("-" = none)
+  main   = mpath#deps#pkgs                        module = mpath=rank#deps#pkgs, joined by "|" -/
+
+def parsePath (s : String) : Option Path := (s.splitOn ".").mapM (·.toNat?)
+
+def parseMPath (s : String) : Option MPath :=
+  match s.splitOn "@" with
+  | [p, m] => do pure ⟨← parsePath p, ← m.toNat?⟩
+  | _ => none
+
+def parseImp (s : String) : Option Imp :=
+  match s.splitOn "@" with
+  | [p] => do pure ⟨← parsePath p, none⟩
+  | [p, m] => do pure ⟨← parsePath p, some (← m.toNat?)⟩
+  | _ => none
+
+def parseDep (s : String) : Option Dep :=
+  let (s, d) := if s.endsWith "!" then ((s.dropRight 1), true) else (s, false)
+  match s.splitOn "=" with
+  | [mp, r] => do pure ⟨← parseMPath mp, ← r.toNat?, d⟩
+  | _ => none
+
+def parseDeps (s : String) : Option (List Dep) :=
+  if s == "-" then some [] else (s.splitOn ",").mapM parseDep
+
+def parsePkg (s : String) : Option Pkg :=
+  match s.splitOn ">" with
+  | [p, is] => do
+    let path ← parsePath p
+    let imps ← if is == "-" then some [] else (is.splitOn ",").mapM parseImp
+    pure ⟨path, imps⟩
+  | _ => none
+
+def parsePkgs (s : String) : Option (List Pkg) :=
+  if s == "-" then some [] else (s.splitOn ";").mapM parsePkg
+
+def parseMain (s : String) : Option Mod :=
+  match s.splitOn "#" with
+  | [mp, ds, ps] => do pure ⟨← parseMPath mp, 0, ← parseDeps ds, ← parsePkgs ps⟩
+  | _ => none
+
+def parseMod (s : String) : Option Mod :=
+  match s.splitOn "#" with
+  | [mv, ds, ps] =>
+    match mv.splitOn "=" with
+    | [mp, r] => do pure ⟨← parseMPath mp, ← r.toNat?, ← parseDeps ds, ← parsePkgs ps⟩
+    | _ => none
+  | _ => none
+
+def parseMods (s : String) : Option (List Mod) :=
+  if s == "-" then some [] else (s.splitOn "|").mapM parseMod
+
+def showPath (p : Path) : String := ".".intercalate (p.map toString)
+
+def showDep (d : Dep) : String :=
+  s!"{showPath d.mp.base}@{d.mp.major}={d.rank}" ++ (if d.dflt then "!" else "")
+
+def showDeps (ds : List Dep) : String :=
+  if ds.isEmpty then "-" else ",".intercalate (ds.map showDep)
+
+def flawStr : Flaw → String
+  | .unresolved => "unresolved" | .ambiguous => "ambiguous" | .unused => "unused"
+  | .unlisted => "unlisted" | .belowSelected => "below-selected" | .missingModule => "missing-module"
+  | .fuel => "fuel"
+
+def fuel : Nat := 20000
+
 def handle (ws : List String) : String :=
   match ws with
+  | ["tidy", m, r] =>
+    match parseMain m, parseMods r with
+    | some main, some mods =>
+      match tidy main (regOf mods) fuel with
+      | .ok ds => "ok " ++ showDeps ds
+      | .error _ => "error"
+    | _, _ => "bad-op"
+  | ["check", m, r] =>
+    match parseMain m, parseMods r with
+    | some main, some mods =>
+      match checkTidy main (regOf mods) fuel with
+      | .ok => "ok" | .nottidy => "nottidy" | .error => "error"
+    | _, _ => "bad-op"
+  | ["spec", m, r, ds] =>
+    -- the specification's verdict on a module file (the implementation's answer)
+    match parseMain m, parseMods r, parseDeps ds with
+    | some main, some mods, some deps =>
+      match specFlaws main (regOf mods) deps fuel with
+      | [] => "ok"
+      | fs => "flawed:" ++ ",".intercalate (fs.map flawStr)
+    | _, _, _ => "bad-op"
   | _ => "bad-op"
 
 end CueVerif.Driver.C17
